@@ -127,6 +127,25 @@ theorem repLoop_exact_none (body : St → List St) (m B : Nat)
         · subst h; exact ⟨0, by omega, by simp⟩
         · exact hiters r h hB
 
+/-- arithmetic of the saturating product, with the bound as a variable (keeps the kernel away
+    from the numeral `usize::MAX`) -/
+theorem satMul_gen_exact (U lo m : Nat) (h : lo * m ≤ U) : min (m * lo) U = lo * m := by
+  rw [Nat.mul_comm m lo]; omega
+
+theorem satMul_gen_many (U k m : Nat) (hkm : k * m ≤ U) (hk : U ≤ k) : min (m * U) U = k * m := by
+  rcases Nat.eq_zero_or_pos m with hm | hm
+  · subst hm; simp
+  · have h1 : U * m ≤ k * m := Nat.mul_le_mul_right _ hk
+    have h2 : U ≤ U * m := Nat.le_mul_of_pos_right _ hm
+    rw [Nat.mul_comm m U]
+    omega
+
+theorem satMul_exact (lo m : Nat) (h : lo * m ≤ UNSET) : satMul m lo = lo * m :=
+  satMul_gen_exact UNSET lo m h
+
+theorem satMul_many (k m : Nat) (hkm : k * m ≤ UNSET) (hk : UNSET ≤ k) : satMul m UNSET = k * m :=
+  satMul_gen_many UNSET k m hkm hk
+
 theorem allMinSize_minSizeMin (m : Nat) : ∀ (es : List Expr), es ≠ [] → allMinSize m es = true →
     minSizeMin es = m
   | [], h, _ => by simp at h
@@ -230,9 +249,7 @@ theorem C13_const_exact (c : Ctx) : ∀ (e : Expr), wellShaped e = true → cons
       have hs : sureReps lo (some lo) = lo := by simp [sureReps]
       rw [hs, this]
       have : lo * minSize e ≤ UNSET := by omega
-      simp only [satMul]
-      rw [Nat.mul_comm (minSize e) lo]
-      omega
+      rw [satMul_exact lo (minSize e) this]
     · have hnone' : hi = none := by
         cases hi with
         | none => rfl
@@ -244,13 +261,7 @@ theorem C13_const_exact (c : Ctx) : ∀ (e : Expr), wellShaped e = true → cons
       rw [hs, hk2]
       have hkm : k * minSize e ≤ UNSET := by omega
       have hk : UNSET ≤ k := by omega
-      simp only [satMul]
-      rcases Nat.eq_zero_or_pos (minSize e) with hm | hm
-      · simp [hm]
-      · have h1 : UNSET * minSize e ≤ k * minSize e := Nat.mul_le_mul_right _ hk
-        have h2 : UNSET ≤ UNSET * minSize e := Nat.le_mul_of_pos_right _ hm
-        have h3 : UNSET ≤ minSize e * UNSET := by rw [Nat.mul_comm]; exact h2
-        omega
+      rw [satMul_many k (minSize e) hkm hk]
   | .delegate inner size casei, _, _, hz, st, r, h, _ => by
     simp only [sem, delegateSem] at h
     simp only [noBareEndZ] at hz
@@ -334,5 +345,722 @@ theorem const_exact_alt (c : Ctx) : ∀ (es : List Expr) (m : Nat), wellShapedAl
       omega
     · exact const_exact_alt c es m hw.2 hc.2 ha.2 hz.2 st r h hB
 end
+
+/-! ### variant: no saturation happened (`minSize e < UNSET`), no bound on the result needed -/
+
+theorem satMul_gen_lt (U m lo : Nat) (h : min (m * lo) U < U) : m * lo < U := by omega
+
+theorem satMul_gen_lt_self (U m : Nat) (h : min (m * U) U < U) : m = 0 := by
+  rcases Nat.eq_zero_or_pos m with hm | hm
+  · exact hm
+  · have : U ≤ m * U := Nat.le_mul_of_pos_left _ hm
+    omega
+
+theorem mul_lt_left (U m lo : Nat) (h : m * lo < U) (hlo : 0 < lo) : m < U := by
+  have : m ≤ m * lo := Nat.le_mul_of_pos_right _ hlo
+  omega
+
+mutual
+/-- if the computed size did not saturate, a constant-size expression matches exactly that many
+    characters (no hypothesis on the result) -/
+theorem C13_const_exact_unsat (c : Ctx) : ∀ (e : Expr), wellShaped e = true → constSize e = true →
+    noBareEndZ e = true → minSize e < UNSET → ∀ (st r : St), r ∈ sem c e st →
+    r.ix = st.ix + minSize e
+  | .concat es, hw, hc, hz, hU, st, r, h => by
+    simp only [sem] at h
+    simp only [wellShaped] at hw
+    simp only [constSize] at hc
+    simp only [noBareEndZ] at hz
+    simp only [minSize] at hU
+    simpa [minSize] using const_exact_unsat_concat c es hw hc hz hU st r h
+  | .alt es, hw, hc, hz, hU, st, r, h => by
+    simp only [sem] at h
+    simp only [wellShaped, Bool.and_eq_true] at hw
+    simp only [constSize, Bool.and_eq_true] at hc
+    simp only [noBareEndZ] at hz
+    cases es with
+    | nil => simp [semAlt] at h
+    | cons e0 es' =>
+      simp only at hc
+      have hm := allMinSize_minSizeMin (minSize e0) (e0 :: es') (by simp) hc.2
+      simp only [minSize] at hU ⊢
+      rw [hm] at hU ⊢
+      exact const_exact_unsat_alt c (e0 :: es') (minSize e0) hw.2 hc.1 hc.2 hz hU st r h
+  | .group g e, hw, hc, hz, hU, st, r, h => by
+    simp only [sem, List.mem_map] at h
+    obtain ⟨r', hr', rfl⟩ := h
+    simp only [wellShaped] at hw
+    simp only [constSize] at hc
+    simp only [noBareEndZ] at hz
+    simp only [minSize] at hU
+    have := C13_const_exact_unsat c e hw hc hz hU _ _ hr'
+    simpa [minSize, setSlot_ix] using this
+  | .repeat e lo hi greedy, hw, hc, hz, hU, st, r, h => by
+    simp only [sem] at h
+    simp only [wellShaped] at hw
+    simp only [constSize, Bool.and_eq_true] at hc
+    simp only [noBareEndZ] at hz
+    have hmono : ∀ st r, r ∈ sem c e st → st.ix ≤ r.ix := fun st r hr => by
+      have := C13_min_sound c e hw st r hr; omega
+    have hbe := hc.2
+    simp only [boundsEq, Bool.or_eq_true, Bool.and_eq_true, beq_iff_eq] at hbe
+    simp only [minSize] at hU ⊢
+    rcases hbe with hbe | ⟨hnone, hlo⟩
+    · subst hbe
+      have hs : sureReps lo (some lo) = lo := by simp [sureReps]
+      rw [hs] at hU ⊢
+      have hlt : minSize e * lo < UNSET := satMul_gen_lt UNSET _ _ hU
+      rcases Nat.eq_zero_or_pos lo with hz0 | hpos
+      · subst hz0
+        simp [repLoop, satMul] at h ⊢
+        subst h; rfl
+      · have hm : minSize e < UNSET := mul_lt_left UNSET _ _ hlt hpos
+        have hbody : ∀ st' r', r' ∈ sem c e st' → r'.ix ≤ st'.ix + r.ix → r'.ix = st'.ix + minSize e :=
+          fun st' r' hr _ => C13_const_exact_unsat c e hw hc.1 hz hm st' r' hr
+        have := repLoop_exact_some (sem c e) (minSize e) r.ix hmono hbody lo greedy _ 0 st r
+          (by omega) h (by omega)
+        simp only [Nat.sub_zero] at this
+        rw [this, satMul_exact lo (minSize e) (by rw [Nat.mul_comm]; omega)]
+    · have hnone' : hi = none := by
+        cases hi with
+        | none => rfl
+        | some _ => simp at hnone
+      subst hnone'
+      have hs : sureReps lo none = UNSET := by simp [sureReps, hlo]
+      rw [hs] at hU ⊢
+      have hm0 : minSize e = 0 := satMul_gen_lt_self UNSET _ hU
+      have hbody : ∀ st' r', r' ∈ sem c e st' → r'.ix ≤ st'.ix + r.ix → r'.ix = st'.ix + minSize e :=
+        fun st' r' hr _ => C13_const_exact_unsat c e hw hc.1 hz (by rw [hm0]; simp [UNSET]) st' r' hr
+      obtain ⟨k, _, hk2⟩ := repLoop_exact_none (sem c e) (minSize e) r.ix hmono hbody lo greedy _ 0
+        st r h (by omega)
+      rw [hk2, hm0]
+      simp [satMul]
+  | .atomic e, hw, hc, hz, hU, st, r, h => by
+    simp only [sem] at h
+    simp only [wellShaped] at hw
+    simp only [constSize] at hc
+    simp only [noBareEndZ] at hz
+    simp only [minSize] at hU
+    have := C13_const_exact_unsat c e hw hc hz hU st r (firstOnly_mem _ _ h)
+    simpa [minSize] using this
+  | .cond cnd y n, hw, hc, hz, hU, st, r, h => by
+    simp only [sem] at h
+    simp only [wellShaped, Bool.and_eq_true] at hw
+    simp only [constSize, Bool.and_eq_true, beq_iff_eq] at hc
+    simp only [noBareEndZ, Bool.and_eq_true] at hz
+    simp only [minSize] at hU ⊢
+    have hs := hc.2
+    simp only [satAdd] at hs hU ⊢
+    split at h
+    · rename_i r1 hr1
+      have hm1 := List.mem_of_mem_head? hr1
+      have h1 := C13_const_exact_unsat c cnd hw.1.1 hc.1.1.1 hz.1.1 (by omega) st r1 hm1
+      have h2 := C13_const_exact_unsat c y hw.1.2 hc.1.1.2 hz.1.2 (by omega) r1 r h
+      omega
+    · have h3 := C13_const_exact_unsat c n hw.2 hc.1.2 hz.2 (by omega) st r h
+      omega
+  | .empty, _, _, _, _, st, r, h => by simp [sem] at h; subst h; simp [minSize]
+  | .any nl, _, _, _, _, st, r, h => by
+    simp only [sem] at h
+    split at h
+    · split at h
+      · simp at h; subst h; simp [minSize]
+      · simp at h
+    · simp at h
+  | .assertion a, _, _, _, _, st, r, h => by
+    simp only [sem] at h; split at h
+    · simp at h; subst h; simp [minSize]
+    · simp at h
+  | .literal val casei, hw, _, _, _, st, r, h => by
+    simp only [sem] at h
+    split at h
+    · simp at h; subst h
+      simp only [wellShaped, beq_iff_eq] at hw
+      simp [minSize, hw]
+    · simp at h
+  | .look e .ahead, _, _, _, _, st, r, h => by
+    simp only [sem, List.mem_map] at h
+    obtain ⟨r', _, rfl⟩ := h
+    simp [minSize]
+  | .look e .aheadNeg, _, _, _, _, st, r, h => by
+    simp only [sem] at h; split at h
+    · simp at h; subst h; simp [minSize]
+    · simp at h
+  | .look e .behind, _, _, _, _, st, r, h => by
+    simp only [sem, List.mem_map] at h
+    obtain ⟨r', _, rfl⟩ := h
+    simp [minSize]
+  | .look e .behindNeg, _, _, _, _, st, r, h => by
+    simp only [sem] at h; split at h
+    · simp at h; subst h; simp [minSize]
+    · simp at h
+  | .delegate inner size casei, _, _, hz, _, st, r, h => by
+    simp only [sem, delegateSem] at h
+    simp only [noBareEndZ] at hz
+    split at h
+    · rename_i hs
+      have hs' : size = 1 := by simpa using hs
+      split at h
+      · split at h
+        · simp at h; subst h; simp [minSize, hs']
+        · simp at h
+      · simp at h
+    · split at h
+      · rename_i hs
+        simp [hs] at hz
+      · simp at h
+  | .backref g, _, hc, _, _, st, r, h => by simp [constSize] at hc
+  | .keepOut, _, _, _, _, st, r, h => by simp [sem] at h; subst h; simp [minSize, setSlot_ix]
+  | .contPrev, _, _, _, _, st, r, h => by
+    simp only [sem] at h; split at h
+    · simp at h; subst h; simp [minSize]
+    · simp at h
+  | .backrefExists g, _, _, _, _, st, r, h => by
+    simp only [sem] at h; split at h
+    · simp at h; subst h; simp [minSize]
+    · simp at h
+  | .subroutine g, _, _, _, _, st, r, h => by simp [sem] at h
+theorem const_exact_unsat_concat (c : Ctx) : ∀ (es : List Expr), wellShapedAll es = true →
+    constSizeAll es = true → noBareEndZAll es = true → minSizeSum es < UNSET → ∀ (st r : St),
+    r ∈ semConcat c es st → r.ix = st.ix + minSizeSum es
+  | [], _, _, _, _, st, r, h => by simp [semConcat] at h; subst h; simp [minSizeSum]
+  | e :: es, hw, hc, hz, hU, st, r, h => by
+    simp only [semConcat, List.mem_flatMap] at h
+    obtain ⟨r1, hr1, hr⟩ := h
+    simp only [wellShapedAll, Bool.and_eq_true] at hw
+    simp only [constSizeAll, Bool.and_eq_true] at hc
+    simp only [noBareEndZAll, Bool.and_eq_true] at hz
+    simp only [minSizeSum, satAdd] at hU ⊢
+    have h1 := C13_const_exact_unsat c e hw.1 hc.1 hz.1 (by omega) st r1 hr1
+    have h2 := const_exact_unsat_concat c es hw.2 hc.2 hz.2 (by omega) r1 r hr
+    omega
+theorem const_exact_unsat_alt (c : Ctx) : ∀ (es : List Expr) (m : Nat), wellShapedAll es = true →
+    constSizeAll es = true → allMinSize m es = true → noBareEndZAll es = true → m < UNSET →
+    ∀ (st r : St), r ∈ semAlt c es st → r.ix = st.ix + m
+  | [], _, _, _, _, _, _, st, r, h => by simp [semAlt] at h
+  | e :: es, m, hw, hc, ha, hz, hU, st, r, h => by
+    simp only [semAlt, List.mem_append] at h
+    simp only [wellShapedAll, Bool.and_eq_true] at hw
+    simp only [constSizeAll, Bool.and_eq_true] at hc
+    simp only [allMinSize, Bool.and_eq_true, beq_iff_eq] at ha
+    simp only [noBareEndZAll, Bool.and_eq_true] at hz
+    rcases h with h | h
+    · have := C13_const_exact_unsat c e hw.1 hc.1 hz.1 (by omega) st r h
+      omega
+    · exact const_exact_unsat_alt c es m hw.2 hc.2 ha.2 hz.2 hU st r h
+end
+
+/-- the bound hypothesis of `C13_const_exact` is implied by its conclusion as soon as the computed
+    size fits `usize` (which `C06_sizes_no_overflow` proves for every tree with `leafSizesOK`):
+    it cannot be weakened -/
+theorem C13_const_exact_bound_necessary (e : Expr) (st r : St) (hle : minSize e ≤ UNSET)
+    (h : r.ix = st.ix + minSize e) : r.ix ≤ st.ix + UNSET := by omega
+
+/-- a context for the examples: exact character comparison, classes accept everything -/
+def exCtx (text : List Char) : Ctx :=
+  ⟨text, 0, false, fun _ => false, fun _ _ _ => true, fun _ a b => a == b⟩
+
+/-- hypotheses of `C13_const_exact` are satisfiable: `a.{2}` on "abc" -/
+example :
+    let e : Expr := .concat [.literal ['a'] false, .repeat (.any true) 2 (some 2) true]
+    wellShaped e = true ∧ constSize e = true ∧ noBareEndZ e = true ∧
+      (⟨3, []⟩ : St) ∈ sem (exCtx ['a', 'b', 'c']) e ⟨0, []⟩ ∧ (3 : Nat) ≤ 0 + UNSET ∧ minSize e = 3 := by
+  simp [wellShaped, wellShapedAll, constSize, constSizeAll, boundsEq, noBareEndZ, noBareEndZAll,
+    sem, semConcat, repLoop, exCtx, Ctx.litAt, Ctx.at?, Ctx.len, minSize, minSizeSum, satAdd, satMul,
+    sureReps, UNSET]
+
+/-- **`noBareEndZ` is necessary**: the bare `\Z` delegate is declared constant-size 0 but consumes
+    the trailing newline of "\n" -/
+example :
+    let e : Expr := .delegate ['\n', '*', '$'] 0 false
+    wellShaped e = true ∧ constSize e = true ∧ minSize e = 0 ∧
+      sem (exCtx ['\n']) e ⟨0, []⟩ = [⟨1, []⟩] := by
+  simp [wellShaped, constSize, minSize, sem, delegateSem, exCtx, Ctx.newlinesFrom, Ctx.len]
+
+theorem C13_const_exact_false_for_bare_endZ :
+    ¬ (∀ (c : Ctx) (e : Expr), wellShaped e = true → constSize e = true → ∀ (st r : St),
+        r ∈ sem c e st → r.ix ≤ st.ix + UNSET → r.ix = st.ix + minSize e) := by
+  intro h
+  have := h (exCtx ['\n']) (.delegate ['\n', '*', '$'] 0 false) (by simp [wellShaped])
+    (by simp [constSize]) ⟨0, []⟩ ⟨1, []⟩
+    (by simp [sem, delegateSem, exCtx, Ctx.newlinesFrom, Ctx.len]) (by simp [UNSET])
+  simp [minSize] at this
+
+/-! ## 2. look-behind: "go back `minSize` characters" is exact -/
+
+theorem flatMap_range_single {α : Type} (g : Nat → List α) (m : Nat) : ∀ (n : Nat),
+    (∀ k, k < n → k ≠ m → g k = []) → (List.range n).flatMap g = if m < n then g m else []
+  | 0, _ => by simp
+  | n + 1, h => by
+    rw [List.range_succ, List.flatMap_append, flatMap_range_single g m n (fun k hk => h k (by omega))]
+    simp only [List.flatMap_cons, List.flatMap_nil, List.append_nil]
+    rcases Nat.lt_trichotomy m n with hlt | heq | hgt
+    · have : g n = [] := h n (by omega) (by omega)
+      simp [hlt, this, show m < n + 1 by omega]
+    · subst heq; simp
+    · have : g n = [] := h n (by omega) (by omega)
+      simp [this, show ¬ m < n by omega, show ¬ m < n + 1 by omega]
+
+/-- over any body that matches exactly `m` characters from every start `≤ ix`, the specification's
+    look-behind is "go back `m`, run the body" -/
+theorem behindOne_eq_goBack (body : St → List St) (m : Nat) (st : St)
+    (hex : ∀ k, k ≤ st.ix → ∀ r, r ∈ body { st with ix := st.ix - k } → r.ix = st.ix - k + m) :
+    behindOne body st = if m ≤ st.ix then body { st with ix := st.ix - m } else [] := by
+  unfold behindOne
+  rw [flatMap_range_single _ m]
+  · by_cases hm : m ≤ st.ix
+    · simp only [show m < st.ix + 1 by omega, hm, if_true]
+      rw [List.filter_eq_self]
+      intro r hr
+      have := hex m hm r hr
+      simp only [beq_iff_eq]; omega
+    · simp [hm, show ¬ m < st.ix + 1 by omega]
+  · intro k hk hne
+    rw [List.filter_eq_nil_iff]
+    intro r hr
+    have := hex k (by omega) r hr
+    simp only [beq_iff_eq]; omega
+
+/-- **An accepted look-behind holds at a position iff its body matches the text ending exactly
+    there**: for a constant-size body, "go back `minSize` characters (fail if that is before the
+    start), run the body, do not check where it ends" — the compiled code — is the specification's
+    "some start `j ≤ ix` has a result ending exactly at `ix`". The text must fit `usize`
+    (`c.len ≤ UNSET`; Rust guarantees `len ≤ isize::MAX`). -/
+theorem C13_lookbehind_exact (c : Ctx) (n : Nat) (e : Expr) (hw : wellShaped e = true)
+    (hc : constSize e = true) (hz : noBareEndZ e = true) (st : St) (hg : st.Good c n)
+    (hlen : c.len ≤ UNSET) :
+    behindOne (sem c e) st =
+      if minSize e ≤ st.ix then sem c e { st with ix := st.ix - minSize e } else [] := by
+  apply behindOne_eq_goBack
+  intro k hk r hr
+  have hg' : ({ st with ix := st.ix - k } : St).Good c n := hg.withIx _ (by have := hg.ix; omega)
+  have := (sem_good c n e _ r hg' hr).ix
+  exact C13_const_exact c e hw hc hz _ r hr (by simp only; omega)
+
+/-- the same without any hypothesis on the state or the text, when the computed size did not
+    saturate (`minSize e < usize::MAX`: always the case for a pattern a machine can hold) -/
+theorem C13_lookbehind_exact_unsat (c : Ctx) (e : Expr) (hw : wellShaped e = true)
+    (hc : constSize e = true) (hz : noBareEndZ e = true) (hU : minSize e < UNSET) (st : St) :
+    behindOne (sem c e) st =
+      if minSize e ≤ st.ix then sem c e { st with ix := st.ix - minSize e } else [] := by
+  apply behindOne_eq_goBack
+  intro k _ r hr
+  exact C13_const_exact_unsat c e hw hc hz hU _ r hr
+
+theorem semBehind_not_alt (c : Ctx) (e : Expr) (hna : ∀ es, e ≠ .alt es) (st : St) :
+    semBehind c e st = behindOne (sem c e) st := by
+  cases e with
+  | alt es => exact absurd rfl (hna es)
+  | _ => simp only [semBehind]
+
+/-- positive look-behind with a non-alternation body -/
+theorem C13_lookbehind_pos (c : Ctx) (n : Nat) (e : Expr) (hna : ∀ es, e ≠ .alt es)
+    (hw : wellShaped e = true) (hc : constSize e = true) (hz : noBareEndZ e = true) (st : St)
+    (hg : st.Good c n) (hlen : c.len ≤ UNSET) :
+    sem c (.look e .behind) st =
+      (firstOnly (if minSize e ≤ st.ix then sem c e { st with ix := st.ix - minSize e } else [])).map
+        fun r => { r with ix := st.ix } := by
+  simp only [sem]
+  rw [semBehind_not_alt c e hna, C13_lookbehind_exact c n e hw hc hz st hg hlen]
+
+/-- negative look-behind with a non-alternation body -/
+theorem C13_lookbehind_neg (c : Ctx) (n : Nat) (e : Expr) (hna : ∀ es, e ≠ .alt es)
+    (hw : wellShaped e = true) (hc : constSize e = true) (hz : noBareEndZ e = true) (st : St)
+    (hg : st.Good c n) (hlen : c.len ≤ UNSET) :
+    sem c (.look e .behindNeg) st =
+      if (if minSize e ≤ st.ix then sem c e { st with ix := st.ix - minSize e } else []).isEmpty
+      then [st] else [] := by
+  simp only [sem]
+  rw [semBehind_not_alt c e hna, C13_lookbehind_exact c n e hw hc hz st hg hlen]
+
+/-- the per-alternative go-backs, in order -/
+def goBackAlts (c : Ctx) (es : List Expr) (st : St) : List St :=
+  es.flatMap fun e => if minSize e ≤ st.ix then sem c e { st with ix := st.ix - minSize e } else []
+
+/-- alternation body whose alternatives are each constant-size (possibly of different sizes):
+    the ordered union of the per-alternative go-backs -/
+theorem C13_lookbehind_alts (c : Ctx) (n : Nat) : ∀ (es : List Expr), wellShapedAll es = true →
+    constSizeAll es = true → noBareEndZAll es = true → ∀ (st : St), st.Good c n → c.len ≤ UNSET →
+    semBehindAlts c es st = goBackAlts c es st
+  | [], _, _, _, st, _, _ => by simp [semBehindAlts, goBackAlts]
+  | e :: es, hw, hc, hz, st, hg, hlen => by
+    simp only [wellShapedAll, Bool.and_eq_true] at hw
+    simp only [constSizeAll, Bool.and_eq_true] at hc
+    simp only [noBareEndZAll, Bool.and_eq_true] at hz
+    simp only [semBehindAlts, goBackAlts, List.flatMap_cons]
+    rw [C13_lookbehind_exact c n e hw.1 hc.1 hz.1 st hg hlen,
+      C13_lookbehind_alts c n es hw.2 hc.2 hz.2 st hg hlen]
+    rfl
+
+theorem C13_lookbehind_pos_alt (c : Ctx) (n : Nat) (es : List Expr) (hw : wellShapedAll es = true)
+    (hc : constSizeAll es = true) (hz : noBareEndZAll es = true) (st : St) (hg : st.Good c n)
+    (hlen : c.len ≤ UNSET) :
+    sem c (.look (.alt es) .behind) st =
+      (firstOnly (goBackAlts c es st)).map fun r => { r with ix := st.ix } := by
+  simp only [sem, semBehind]
+  rw [C13_lookbehind_alts c n es hw hc hz st hg hlen]
+
+theorem C13_lookbehind_neg_alt (c : Ctx) (n : Nat) (es : List Expr) (hw : wellShapedAll es = true)
+    (hc : constSizeAll es = true) (hz : noBareEndZAll es = true) (st : St) (hg : st.Good c n)
+    (hlen : c.len ≤ UNSET) :
+    sem c (.look (.alt es) .behindNeg) st = if (goBackAlts c es st).isEmpty then [st] else [] := by
+  simp only [sem, semBehind]
+  rw [C13_lookbehind_alts c n es hw hc hz st hg hlen]
+
+/-- hypotheses of `C13_lookbehind_exact` are satisfiable: `(?<=a)` at position 1 of "ab" -/
+example :
+    let c := exCtx ['a', 'b']
+    let e : Expr := .literal ['a'] false
+    let st : St := ⟨1, []⟩
+    wellShaped e = true ∧ constSize e = true ∧ noBareEndZ e = true ∧ st.Good c 0 ∧ c.len ≤ UNSET ∧
+      behindOne (sem c e) st = [⟨1, []⟩] := by
+  refine ⟨by simp [wellShaped], by simp [constSize], by simp [noBareEndZ],
+    ⟨by simp [exCtx, Ctx.len], rfl, by simp⟩, by simp [exCtx, Ctx.len, UNSET], ?_⟩
+  simp [behindOne, List.range_succ, sem, exCtx, Ctx.litAt, Ctx.at?]
+
+/-- **`noBareEndZ` is necessary for the look-behind rule too**: with a bare `\Z` as body, at
+    position 0 of "\n" the specification's look-behind fails (no result ends at 0) while "go back 0
+    and run the body" succeeds. The parser cannot produce this tree. -/
+example :
+    let c := exCtx ['\n']
+    let e : Expr := .delegate ['\n', '*', '$'] 0 false
+    let st : St := ⟨0, []⟩
+    behindOne (sem c e) st = [] ∧
+      (if minSize e ≤ st.ix then sem c e { st with ix := st.ix - minSize e } else []) = [⟨1, []⟩] := by
+  simp [behindOne, List.range_succ, sem, delegateSem, exCtx, Ctx.newlinesFrom, Ctx.len, minSize]
+
+/-! ## 3. `GoBack` fails rather than reading before the start of the text -/
+
+theorem C13_goback (ix n : Nat) :
+    (goBack ix n = some (ix - n) ↔ n ≤ ix) ∧ (goBack ix n = none ↔ ix < n) := by
+  unfold goBack
+  by_cases h : n ≤ ix
+  · simp [h]
+  · simp [h]; omega
+
+/-! ## 4. which look-behinds the compiler accepts -/
+
+theorem C13_accept_behind_not_const (br : Nat → Bool) (e : Expr) (hna : ∀ es, e ≠ .alt es)
+    (hc : constSize e = false) (hard : Bool) (pc nsv gix : Nat) :
+    visit br (.look e .behind) hard pc nsv gix = .error .lookBehindNotConst := by
+  rw [visit]
+  · simp [isHard, hc]
+  · intro es h; exact hna es h
+
+theorem C13_accept_behind_const (br : Nat → Bool) (e : Expr) (hna : ∀ es, e ≠ .alt es)
+    (hc : constSize e = true) (hard : Bool) (pc nsv gix : Nat) :
+    visit br (.look e .behind) hard pc nsv gix =
+      match visit br e false (posLookBodyPc (isHard br e) true pc) (nsv + 1) gix with
+      | .error err => .error err
+      | .ok (code, nsv') => .ok (wrapPosLook (isHard br e) true nsv (minSize e) code, nsv') := by
+  rw [visit]
+  · simp only [isHard, hc, Bool.not_true, Bool.and_false, Bool.false_eq_true, if_false]
+    rfl
+  · intro es h; exact hna es h
+
+theorem C13_accept_behindNeg_not_const (br : Nat → Bool) (e : Expr) (hna : ∀ es, e ≠ .alt es)
+    (hc : constSize e = false) (hard : Bool) (pc nsv gix : Nat) :
+    visit br (.look e .behindNeg) hard pc nsv gix = .error .lookBehindNotConst := by
+  rw [visit]
+  · simp [isHard, hc]
+  · intro es h; exact hna es h
+
+theorem C13_accept_behindNeg_const (br : Nat → Bool) (e : Expr) (hna : ∀ es, e ≠ .alt es)
+    (hc : constSize e = true) (hard : Bool) (pc nsv gix : Nat) :
+    visit br (.look e .behindNeg) hard pc nsv gix =
+      match visit br e false (negLookBodyPc true pc) nsv gix with
+      | .error err => .error err
+      | .ok (code, nsv') => .ok (wrapNegLook true pc (minSize e) code, nsv') := by
+  rw [visit]
+  · simp only [isHard, hc, Bool.not_true, Bool.and_false, Bool.false_eq_true, if_false]
+    rfl
+  · intro es h; exact hna es h
+
+/-- **non-alternation body**: provided the body's own compilation does not report
+    `LookBehindNotConst` (a nested bad look-behind), the look-behind is rejected with that error iff
+    its body is not constant-size -/
+theorem C13_accept_iff (br : Nat → Bool) (e : Expr) (hna : ∀ es, e ≠ .alt es)
+    (hsub : ∀ hard pc nsv gix, visit br e hard pc nsv gix ≠ .error .lookBehindNotConst)
+    (hard : Bool) (pc nsv gix : Nat) :
+    (visit br (.look e .behind) hard pc nsv gix = .error .lookBehindNotConst ↔ constSize e = false) ∧
+    (visit br (.look e .behindNeg) hard pc nsv gix = .error .lookBehindNotConst ↔ constSize e = false) := by
+  constructor
+  · constructor
+    · intro h
+      cases hc : constSize e with
+      | false => rfl
+      | true =>
+        rw [C13_accept_behind_const br e hna hc] at h
+        split at h
+        · rename_i heq; cases h; exact absurd heq (hsub _ _ _ _)
+        · cases h
+    · intro hc; exact C13_accept_behind_not_const br e hna hc hard pc nsv gix
+  · constructor
+    · intro h
+      cases hc : constSize e with
+      | false => rfl
+      | true =>
+        rw [C13_accept_behindNeg_const br e hna hc] at h
+        split at h
+        · rename_i heq; cases h; exact absurd heq (hsub _ _ _ _)
+        · cases h
+    · intro hc; exact C13_accept_behindNeg_not_const br e hna hc hard pc nsv gix
+
+/-- some alternative's own compilation fails with `err` (e.g. a nested bad look-behind) -/
+def subErr (br : Nat → Bool) (es : List Expr) (err : CompileErr) : Prop :=
+  ∃ e, e ∈ es ∧ ∃ hard pc nsv gix, visit br e hard pc nsv gix = .error err
+
+theorem subErr_cons (br : Nat → Bool) (e : Expr) (es : List Expr) (err : CompileErr)
+    (h : subErr br es err) : subErr br (e :: es) err := by
+  obtain ⟨e', he', h'⟩ := h
+  exact ⟨e', by simp [he'], h'⟩
+
+theorem subErr_head (br : Nat → Bool) (e : Expr) (es : List Expr) (err : CompileErr)
+    (hard : Bool) (pc nsv gix : Nat) (h : visit br e hard pc nsv gix = .error err) :
+    subErr br (e :: es) err := ⟨e, by simp, hard, pc, nsv, gix, h⟩
+
+theorem constSizeAll_false_iff : ∀ (es : List Expr),
+    constSizeAll es = false ↔ ∃ e, e ∈ es ∧ constSize e = false
+  | [] => by simp [constSizeAll]
+  | e :: es => by
+    simp only [constSizeAll, Bool.and_eq_false_iff, constSizeAll_false_iff es, List.mem_cons]
+    constructor
+    · rintro (h | ⟨e', he', h'⟩)
+      · exact ⟨e, Or.inl rfl, h⟩
+      · exact ⟨e', Or.inr he', h'⟩
+    · rintro ⟨e', (rfl | he'), h'⟩
+      · exact Or.inl h'
+      · exact Or.inr ⟨e', he', h'⟩
+
+theorem lookBehindAlts_ok_const (br : Nat → Bool) : ∀ (es : List Expr) (pc nsv gix : Nat)
+    (x : (Nat → Code) × Nat × Nat), lookBehindAlts br es pc nsv gix = .ok x → constSizeAll es = true
+  | [], _, _, _, _, _ => by simp [constSizeAll]
+  | [e], pc, nsv, gix, x, h => by
+    simp only [lookBehindAlts] at h
+    split at h
+    · cases h
+    · simp_all [constSizeAll]
+  | e :: e2 :: es, pc, nsv, gix, x, h => by
+    simp only [lookBehindAlts] at h
+    split at h
+    · cases h
+    · split at h
+      · cases h
+      · split at h
+        · cases h
+        · rename_i heq
+          have := lookBehindAlts_ok_const br (e2 :: es) _ _ _ _ heq
+          simp_all [constSizeAll]
+
+theorem lookBehindAlts_error (br : Nat → Bool) : ∀ (es : List Expr) (pc nsv gix : Nat)
+    (err : CompileErr), lookBehindAlts br es pc nsv gix = .error err →
+    (err = .lookBehindNotConst ∧ constSizeAll es = false) ∨ subErr br es err
+  | [], _, _, _, _, h => by simp [lookBehindAlts] at h
+  | [e], pc, nsv, gix, err, h => by
+    simp only [lookBehindAlts] at h
+    split at h
+    · cases h; left; simp_all [constSizeAll]
+    · split at h
+      · rename_i heq
+        cases h
+        exact Or.inr (subErr_head br e [] _ _ _ _ _ heq)
+      · cases h
+  | e :: e2 :: es, pc, nsv, gix, err, h => by
+    simp only [lookBehindAlts] at h
+    split at h
+    · cases h; left; simp_all [constSizeAll]
+    · split at h
+      · rename_i heq
+        cases h
+        exact Or.inr (subErr_head br e _ _ _ _ _ _ heq)
+      · split at h
+        · rename_i heq
+          cases h
+          rcases lookBehindAlts_error br (e2 :: es) _ _ _ _ heq with ⟨h1, h2⟩ | h1
+          · left; refine ⟨h1, ?_⟩
+            simp only [constSizeAll] at h2 ⊢
+            simp [h2]
+          · exact Or.inr (subErr_cons br e _ _ h1)
+        · cases h
+
+theorem lookBehindNegAlts_ok_const (br : Nat → Bool) : ∀ (es : List Expr) (pc nsv gix : Nat)
+    (x : Code × Nat), lookBehindNegAlts br es pc nsv gix = .ok x → constSizeAll es = true
+  | [], _, _, _, _, _ => by simp [constSizeAll]
+  | e :: es, pc, nsv, gix, x, h => by
+    simp only [lookBehindNegAlts] at h
+    split at h
+    · cases h
+    · split at h
+      · cases h
+      · split at h
+        · cases h
+        · rename_i heq
+          have := lookBehindNegAlts_ok_const br es _ _ _ _ heq
+          simp_all [constSizeAll]
+
+theorem lookBehindNegAlts_error (br : Nat → Bool) : ∀ (es : List Expr) (pc nsv gix : Nat)
+    (err : CompileErr), lookBehindNegAlts br es pc nsv gix = .error err →
+    (err = .lookBehindNotConst ∧ constSizeAll es = false) ∨ subErr br es err
+  | [], _, _, _, _, h => by simp [lookBehindNegAlts] at h
+  | e :: es, pc, nsv, gix, err, h => by
+    simp only [lookBehindNegAlts] at h
+    split at h
+    · cases h; left; simp_all [constSizeAll]
+    · split at h
+      · rename_i heq
+        cases h
+        exact Or.inr (subErr_head br e _ _ _ _ _ _ heq)
+      · split at h
+        · rename_i heq
+          cases h
+          rcases lookBehindNegAlts_error br es _ _ _ _ heq with ⟨h1, h2⟩ | h1
+          · left; refine ⟨h1, ?_⟩
+            simp only [constSizeAll]
+            simp [h2]
+          · exact Or.inr (subErr_cons br e _ _ h1)
+        · cases h
+
+theorem visitAlt_error (br : Nat → Bool) : ∀ (es : List Expr) (hard : Bool) (pc nsv gix : Nat)
+    (err : CompileErr), visitAlt br es hard pc nsv gix = .error err → subErr br es err
+  | [], _, _, _, _, _, h => by simp [visitAlt] at h
+  | [e], hard, pc, nsv, gix, err, h => by
+    simp only [visitAlt] at h
+    split at h
+    · rename_i heq
+      cases h
+      exact subErr_head br e [] _ _ _ _ _ heq
+    · cases h
+  | e :: e2 :: es, hard, pc, nsv, gix, err, h => by
+    simp only [visitAlt] at h
+    split at h
+    · rename_i heq
+      cases h
+      exact subErr_head br e _ _ _ _ _ _ heq
+    · split at h
+      · rename_i heq
+        cases h
+        exact subErr_cons br e _ _ (visitAlt_error br (e2 :: es) _ _ _ _ _ heq)
+      · cases h
+
+theorem visitAltBody_error (br : Nat → Bool) (es : List Expr) (pc nsv gix : Nat)
+    (err : CompileErr) (h : visitAltBody br es pc nsv gix = .error err) : subErr br es err := by
+  rw [visitAltBody] at h
+  split at h
+  · cases h
+  · split at h
+    · rename_i heq
+      cases h
+      exact visitAlt_error br es _ _ _ _ _ heq
+    · cases h
+
+theorem constSize_alt_all (es : List Expr) (h : constSize (.alt es) = true) : constSizeAll es = true := by
+  simp only [constSize, Bool.and_eq_true] at h
+  exact h.1
+
+/-- an accepted look-behind over an alternation has only constant-size alternatives (they may have
+    different sizes) -/
+theorem C13_accept_behind_alt_ok (br : Nat → Bool) (es : List Expr) (hard : Bool) (pc nsv gix : Nat)
+    (x : Code × Nat) (h : visit br (.look (.alt es) .behind) hard pc nsv gix = .ok x) :
+    constSizeAll es = true := by
+  rw [visit] at h
+  simp only [isHard, Bool.not_true, Bool.and_false, Bool.false_eq_true, if_false] at h
+  split at h
+  · split at h
+    · cases h
+    · rename_i heq
+      exact lookBehindAlts_ok_const br es _ _ _ _ heq
+  · rename_i hc
+    exact constSize_alt_all es (by simpa using hc)
+
+/-- a rejected one: either some alternative is not constant-size (`LookBehindNotConst`), or the
+    compilation of an alternative itself failed -/
+theorem C13_accept_behind_alt_error (br : Nat → Bool) (es : List Expr) (hard : Bool)
+    (pc nsv gix : Nat) (err : CompileErr)
+    (h : visit br (.look (.alt es) .behind) hard pc nsv gix = .error err) :
+    (err = .lookBehindNotConst ∧ constSizeAll es = false) ∨ subErr br es err := by
+  rw [visit] at h
+  simp only [isHard, Bool.not_true, Bool.and_false, Bool.false_eq_true, if_false] at h
+  split at h
+  · split at h
+    · rename_i heq
+      cases h
+      exact lookBehindAlts_error br es _ _ _ _ heq
+    · cases h
+  · split at h
+    · rename_i heq
+      cases h
+      exact Or.inr (visitAltBody_error br es _ _ _ _ heq)
+    · cases h
+
+theorem C13_accept_behindNeg_alt_ok (br : Nat → Bool) (es : List Expr) (hard : Bool) (pc nsv gix : Nat)
+    (x : Code × Nat) (h : visit br (.look (.alt es) .behindNeg) hard pc nsv gix = .ok x) :
+    constSizeAll es = true := by
+  rw [visit] at h
+  simp only [isHard, Bool.not_true, Bool.and_false, Bool.false_eq_true, if_false] at h
+  split at h
+  · exact lookBehindNegAlts_ok_const br es _ _ _ _ h
+  · rename_i hc
+    exact constSize_alt_all es (by simpa using hc)
+
+theorem C13_accept_behindNeg_alt_error (br : Nat → Bool) (es : List Expr) (hard : Bool)
+    (pc nsv gix : Nat) (err : CompileErr)
+    (h : visit br (.look (.alt es) .behindNeg) hard pc nsv gix = .error err) :
+    (err = .lookBehindNotConst ∧ constSizeAll es = false) ∨ subErr br es err := by
+  rw [visit] at h
+  simp only [isHard, Bool.not_true, Bool.and_false, Bool.false_eq_true, if_false] at h
+  split at h
+  · exact lookBehindNegAlts_error br es _ _ _ _ h
+  · split at h
+    · rename_i heq
+      cases h
+      exact Or.inr (visitAltBody_error br es _ _ _ _ heq)
+    · cases h
+
+
+/-- **alternation body**: provided the alternatives themselves compile, `(?<=a|bb|…)` /
+    `(?<!a|bb|…)` is rejected iff some alternative is not constant-size, and then the error is
+    `LookBehindNotConst` -/
+theorem C13_accept_iff_alt (br : Nat → Bool) (es : List Expr) (hsub : ∀ err, ¬ subErr br es err)
+    (la : Look) (hla : la = .behind ∨ la = .behindNeg) (hard : Bool) (pc nsv gix : Nat) :
+    ((∃ err, visit br (.look (.alt es) la) hard pc nsv gix = .error err) ↔
+        ∃ e, e ∈ es ∧ constSize e = false) ∧
+    (∀ err, visit br (.look (.alt es) la) hard pc nsv gix = .error err → err = .lookBehindNotConst) := by
+  have hok : ∀ x, visit br (.look (.alt es) la) hard pc nsv gix = .ok x → constSizeAll es = true := by
+    intro x h
+    rcases hla with rfl | rfl
+    · exact C13_accept_behind_alt_ok br es hard pc nsv gix x h
+    · exact C13_accept_behindNeg_alt_ok br es hard pc nsv gix x h
+  have herr : ∀ err, visit br (.look (.alt es) la) hard pc nsv gix = .error err →
+      err = .lookBehindNotConst ∧ constSizeAll es = false := by
+    intro err h
+    have : (err = .lookBehindNotConst ∧ constSizeAll es = false) ∨ subErr br es err := by
+      rcases hla with rfl | rfl
+      · exact C13_accept_behind_alt_error br es hard pc nsv gix err h
+      · exact C13_accept_behindNeg_alt_error br es hard pc nsv gix err h
+    rcases this with h1 | h1
+    · exact h1
+    · exact absurd h1 (hsub err)
+  refine ⟨⟨?_, ?_⟩, fun err h => (herr err h).1⟩
+  · rintro ⟨err, h⟩
+    exact (constSizeAll_false_iff es).mp (herr err h).2
+  · intro h
+    have hf := (constSizeAll_false_iff es).mpr h
+    cases hv : visit br (.look (.alt es) la) hard pc nsv gix with
+    | error err => exact ⟨err, rfl⟩
+    | ok x => have := hok x hv; simp [hf] at this
+
+/-- the decision is not vacuous: `(?<=a|bb)` (different sizes, each constant) is accepted,
+    `(?<=a|b*)` is rejected -/
+example :
+    (∃ x, visit (fun _ => false) (.look (.alt [.literal ['a'] false,
+        .concat [.literal ['b'] false, .literal ['b'] false]]) .behind) true 0 0 0 = .ok x) ∧
+    visit (fun _ => false) (.look (.alt [.literal ['a'] false,
+        .repeat (.literal ['b'] false) 0 none true]) .behind) true 0 0 0 = .error .lookBehindNotConst := by
+  constructor
+  · rw [visit]
+    simp [isHard, isHardAny, constSize, constSizeAll, allMinSize, minSize, minSizeSum, satAdd, UNSET,
+      lookBehindAlts, visit]
+  · rw [visit]
+    simp [isHard, isHardAny, constSize, constSizeAll, boundsEq, UNSET, lookBehindAlts, visit]
 
 end Fancy
